@@ -49,7 +49,17 @@ def build_tests(case):
 
     if case['kind'] == 'stub':
         # case['layouts'][k]: memory layout of the k-th p-value array (same logical content)
-        parrs = [arr(p, lay[k] if k < len(lay) else 'C') for k, p in enumerate(case['pvals'])]
+        # case['pdtypes'][k]: dtype of the k-th p-value array (the values are exactly representable)
+        pdt = case.get('pdtypes') or []
+
+        def pcast(a, k):
+            dtype = pdt[k] if k < len(pdt) else None
+            if not dtype or dtype == 'float64':
+                return a
+            back = np.asarray(a).astype(dtype)
+            assert np.array_equal(np.asarray(back, dtype=float), np.asarray(a, dtype=float), equal_nan=True), dtype
+            return back if shape else back[()]
+        parrs = [pcast(arr(p, lay[k] if k < len(lay) else 'C'), k) for k, p in enumerate(case['pvals'])]
         zero = arr([0] * (int(np.prod(shape)) if shape else 1))
 
         class PvalueStub(TestStudent):
@@ -364,6 +374,39 @@ def stub_case(alpha, shape, parrs, lay=None):
     return case
 
 
+INT_P_DTYPES = ['int8', 'int16', 'int32', 'int64', 'uint8', 'uint16', 'uint32', 'uint64', 'bool']
+DYADIC = [0.0, 1.0, 0.5, 0.25, 0.75] + [2.0 ** -k for k in range(3, 12)]      # exact in float16/32/64
+
+
+def dtype_cases(rng, quick):
+    '''p-value arrays that are not float64: every array of zeros and ones of size <= 4 (quick 3) for
+    every integer dtype and bool, and dyadic p-values (exact in float16) as float32 / float16;
+    levels and flags must be those of the same numbers as float64'''
+    import itertools
+    out = []
+    mmax = 3 if quick else 4
+    for dtype in INT_P_DTYPES:
+        for m in range(1, mmax + 1):
+            tuples = [list(map(float, t)) for t in itertools.product((0, 1), repeat=m)]
+            for k in range(0, len(tuples), 8):
+                shape = [[m], [1, m], [m, 1]][(k // 8 + m) % 3] if m != 4 else [[4], [2, 2]][(k // 8) % 2]
+                batch = tuples[k:k + 8]
+                alpha = [0.05, 0.5, 0.01][(m + k // 8) % 3]
+                case = stub_case(alpha, shape, batch, [layouts.KINDS[(k // 8 + m) % 7]] * len(batch))
+                case['pdtypes'] = [dtype] * len(batch)
+                out.append(case)
+    for dtype in ('float32', 'float16'):
+        for _ in range(12 if quick else 150):
+            m = rng.choice([1, 2, 3, 4, 6, 8, 12])
+            shape = rand_shape(rng, m)
+            parrs = [[NAN if rng.random() < 0.05 else rng.choice(DYADIC) for _ in range(m)]
+                     for _ in range(rng.choice([1, 2, 3]))]
+            case = stub_case(rng.choice([0.05, 0.5, 0.01, 0.25]), shape, parrs, [layouts.pick(rng, shape) for _ in parrs])
+            case['pdtypes'] = [dtype] * len(parrs)
+            out.append(case)
+    return out
+
+
 def layout_cases():
     '''the same mixed-flag p-values (2-d and 3-d) under every memory layout'''
     out = []
@@ -466,6 +509,9 @@ def gen_cases(ctx):
     ctx.count('corpus', len(cases))
     cases += layout_cases()
     ctx.count('layout_grid_cases', len(cases) - ctx.dist['corpus'])
+    extra = dtype_cases(rng, quick)
+    ctx.count('non_float64_pvalue_cases', len(extra))
+    cases += extra
     nrand = 350 if quick else 9000
     mmax = 40 if quick else 120
     for _ in range(nrand):
@@ -483,6 +529,9 @@ def gen_cases(ctx):
         if rng.random() < 0.04:
             parrs = [[p[0]] * m for p in parrs]                     # constant array: broadcastable
         case = stub_case(alpha, shape, parrs, [layouts.pick(rng, shape) for _ in parrs])
+        if rng.random() < 0.06:                                     # zeros and ones with an integer / bool dtype
+            case['pvals'] = [[bits(float(rng.random() < 0.5)) for _ in range(m)] for _ in parrs]
+            case['pdtypes'] = [rng.choice(INT_P_DTYPES) for _ in parrs]
         if shape and rng.random() < 0.12:                           # masked reference dataset
             r = rng.random()
             case['refmask'] = [0] * m if r < 0.2 else [1] * m if r < 0.3 else [int(rng.random() < 0.3) for _ in range(m)]
@@ -509,6 +558,8 @@ def coq_case(case, obs):
 def classify(ctx, case, obs):
     '''input distribution + non-triviality'''
     ctx.count('kind_' + case['kind'])
+    for dt in case.get('pdtypes') or []:
+        ctx.count('pvalue_dtype_' + dt)
     if case.get('masks') or case.get('refmask') is not None:
         ctx.count('masked_datasets_cases')
     if case.get('dtypes'):
@@ -540,7 +591,7 @@ def run(ctx):
     ctx.rule = ('corpus (NaN, p == level/m, scalars, ties) + random p-value arrays of size 1..40 (quick) / '
                 '1..120 (thorough), scalar to 3-d shapes, 1..3 compared datasets, p-values drawn around the '
                 'per-rank levels incl. the exact levels and their float neighbours, ties 20%, 0/1 10%, NaN 12% '
-                'in a third of the cases; every p-value / value / error array handed over C- or Fortran-ordered, axis-permuted, strided, negatively strided, read-only or broadcast (55% non-plain) and the documented static methods called directly on them; 15% real Student tests (20% of them integer-valued with int dtypes, 30% masked through Dataset.mask(); 12% of the stub cases have a masked reference); every case re-evaluates the same Bonferroni/Holm/first-test objects in another order and re-reads the earlier results; non-trivial = some array has flagged and '
+                'in a third of the cases; every p-value / value / error array handed over C- or Fortran-ordered, axis-permuted, strided, negatively strided, read-only or broadcast (55% non-plain) and the documented static methods called directly on them; 15% real Student tests (20% of them integer-valued with int dtypes, 30% masked through Dataset.mask(); 12% of the stub cases have a masked reference); p-value arrays of zeros and ones with every integer dtype and bool (all arrays of size <= 3, thorough 4) and dyadic p-values as float32/float16, through evaluate() and the static methods: levels/flags of the same numbers as float64; every case re-evaluates the same Bonferroni/Holm/first-test objects in another order and re-reads the earlier results; non-trivial = some array has flagged and '
                 'unflagged bins under Holm-Bonferroni; distinct by case content')
     cases = gen_cases(ctx)
     exh, n_exh, bound = exhaustive_cases(ctx.tier)
